@@ -49,7 +49,7 @@ def vel_arrays(G, nframes, recipe, seed=0):
 
 
 def write_forcing(d: Path, G, frame_times, U, V, partition=None, extra=None, storage="f8",
-                  stem="forcing"):
+                  stem="forcing", time_units=None):
     """Write frames into one or several files.  partition: list of frame counts per file.
 
     Returns (pattern_or_filename, [filenames])
@@ -63,7 +63,7 @@ def write_forcing(d: Path, G, frame_times, U, V, partition=None, extra=None, sto
         b = a + cnt
         path = Path(d) / f"{stem}_{n:03d}.nc"
         ex = {k: v[a:b] for k, v in (extra or {}).items()}
-        roms.write_roms(path, G, frame_times[a:b], U[a:b], V[a:b], extra=ex, storage=storage)
+        roms.write_roms(path, G, frame_times[a:b], U[a:b], V[a:b], extra=ex, storage=storage, time_units=time_units)
         files.append(path)
         a = b
     if len(files) == 1:
